@@ -259,13 +259,47 @@ def run_one(mid, prop, rel, edit, expect, what):
     return (mid, prop, "MISSED", what)
 
 
+_TODO = []
+
+
+def _run_index(i):
+    return run_one(*_TODO[i])
+
+
+def collect(props=None, jobs=16):
+    """Run the catalogue (for the given properties) and return [(id, prop, status, info)]."""
+    global _TODO
+    props = [p.upper() for p in (props or [])]
+    todo = [m for m in MUTANTS if not props or m[1] in props]
+    _TODO = todo
+    if jobs and jobs > 1 and len(todo) > 3:
+        import multiprocessing as mp
+        try:
+            with mp.get_context("fork").Pool(min(jobs, len(todo))) as pool:
+                return pool.map(_run_index, range(len(todo)))
+        except (OSError, ValueError):
+            pass
+    return [run_one(*m) for m in todo]
+
+
 def run(props=None, jobs=16) -> int:
     props = [p.upper() for p in (props or [])]
     todo = [m for m in MUTANTS if not props or m[1] in props]
     t0 = time.time()
     results = []
-    for m in todo:
-        results.append(run_one(*m))
+    global _TODO
+    _TODO = todo
+    if jobs and jobs > 1 and len(todo) > 3:
+        import multiprocessing as mp
+        try:
+            ctxmp = mp.get_context("fork")
+            with ctxmp.Pool(min(jobs, len(todo))) as pool:
+                results = pool.map(_run_index, range(len(todo)))
+        except (OSError, ValueError):
+            results = [run_one(*m) for m in todo]
+    else:
+        for m in todo:
+            results.append(run_one(*m))
     bad = 0
     counts = {}
     for mid, prop, status, info in results:
